@@ -7,6 +7,7 @@ import re
 import resource
 import shutil
 import subprocess
+import sys
 import tempfile
 import time
 
@@ -28,6 +29,8 @@ BASE_FLAGS = ['--bounds-check', '--pointer-check', '--pointer-overflow-check',
 
 def load_units():
     units = {}
+    if VERIF not in sys.path:
+        sys.path.insert(0, VERIF)
     d = os.path.join(VERIF, 'units')
     for fn in sorted(os.listdir(d)):
         if not fn.endswith('.py') or fn.startswith('_'):
